@@ -299,7 +299,7 @@ where
     let op = r.get("op").unwrap_or("");
     let n = p.n;
     let module: Module<BE> = Module::<BE>::new(n as u64);
-    let mut scratch: ScratchOwned<BE> = ScratchOwned::alloc(1 << 20);
+    let mut scratch: ScratchOwned<BE> = ScratchOwned::alloc(1 << 19);
     let mut rng = Sm(r.i64("seed") as u64);
     let cols = p.cols;
 
@@ -720,14 +720,16 @@ where
             }
             module.cnv_prepare_left(&mut lp, a, mask, scratch.borrow());
             module.cnv_prepare_right(&mut rp, b, mask, scratch.borrow());
-            let mut rd: DftO<BE> = module.vec_znx_dft_alloc(1, p.sr);
+            // the result has `cols` columns and only column `c` is written: the others keep their prefill
+            let mut rd: DftO<BE> = module.vec_znx_dft_alloc(cols, p.sr);
+            garbage(&mut rd, rng);
             if op == "cnv_apply_dft" {
-                module.cnv_apply_dft(cnv_offset, &mut rd, 0, &lp, c, &rp, c2, scratch.borrow());
+                module.cnv_apply_dft(cnv_offset, &mut rd, c, &lp, c, &rp, c2, scratch.borrow());
             } else {
-                module.cnv_pairwise_apply_dft(cnv_offset, &mut rd, 0, &lp, &rp, c, c2, scratch.borrow());
+                module.cnv_pairwise_apply_dft(cnv_offset, &mut rd, c, &lp, &rp, c, c2, scratch.borrow());
             }
             let bg = module.vec_znx_idft_apply_consume(rd);
-            return read_big(module, &bg, 1, p.sr, p.b, scratch);
+            return read_big(module, &bg, cols, p.sr, p.b, scratch);
         }
         _ => return "bad-op".to_string(),
     }
